@@ -6,6 +6,7 @@
 -/
 import Edn.Spec.Ranges
 import Edn.Proofs.Fuel
+import Edn.Proofs.RangesAux4
 
 namespace Edn.Proofs
 open Edn.Model Edn.Spec
@@ -25,23 +26,61 @@ def ErrRangeOK (before : St) (e : ErrInfo) (after : St) : Prop :=
     `edn_read_value` returns satisfies the range conditions and spans exactly the bytes read -/
 theorem readValue_ranges (ctx : Ctx) (hreg : ctx.opts.registry = none) (f d : Nat) (dm : Bool) (st st' : St) (v : Val)
     (h : readValue ctx f d dm st = .ok v st') : RangeOK v ∧ SpanOf st v st' := by
-  sorry
+  have q := (reader_post ctx f).1 d dm st
+  rw [h] at q
+  have hv : OkPost st.rest.length v st' := q hreg
+  exact ⟨hv.rok, hv.nsyn, hv.he, hv.hlt, hv.hs⟩
 
 /-- every error `edn_read_value` returns has a well-formed range (with or without registry) -/
 theorem readValue_err_ranges (ctx : Ctx) (f d : Nat) (dm : Bool) (st st' : St) (e : ErrInfo)
     (h : readValue ctx f d dm st = .err e st') (hf : e.fuelOut = false) : ErrRangeOK st e st' := by
-  sorry
+  have _ := hf
+  have q := (reader_post ctx f).1 d dm st
+  rw [h] at q
+  exact q
 
 /-- top level, absolute offsets: the tree's ranges are inside the input … -/
 theorem read_value_ranges (cfg : Cfg) (opts : Opts) (hreg : opts.registry = none) (input : Bytes) (v : Val)
     (h : (read cfg opts input).out = .value v) :
     RangeOK v ∧ v.hdr.s ≤ input.length ∧ v.hdr.e < v.hdr.s := by
-  sorry
+  unfold Edn.Model.read at h
+  simp only [] at h
+  cases hr : readValue { cfg := cfg, opts := opts } (readFuel input) 0 false { rest := input } with
+  | ok v' st =>
+    rw [hr] at h
+    simp only [Outcome.value.injEq] at h
+    subst h
+    obtain ⟨h1, -, h2, h3, h4⟩ := readValue_ranges { cfg := cfg, opts := opts } hreg _ _ _ _ _ _ hr
+    exact ⟨h1, h4, by omega⟩
+  | closer st => rw [hr] at h; cases h
+  | err e st =>
+    rw [hr] at h
+    simp only [] at h
+    repeat' split at h
+    all_goals cases h
 
 /-- … and for every failed read 0 ≤ start offset ≤ end offset ≤ input length -/
 theorem read_error_ranges (cfg : Cfg) (opts : Opts) (input : Bytes) (code : Err) (es ee : Pos)
     (h : (read cfg opts input).out = .error code es ee) :
     es.offset ≤ ee.offset ∧ ee.offset ≤ input.length := by
-  sorry
+  unfold Edn.Model.read at h
+  simp only [] at h
+  cases hr : readValue { cfg := cfg, opts := opts } (readFuel input) 0 false { rest := input } with
+  | ok v' st => rw [hr] at h; cases h
+  | closer st => rw [hr] at h; cases h
+  | err e st =>
+    rw [hr] at h
+    simp only [] at h
+    split at h
+    · cases h
+    · rename_i hfo
+      split at h
+      · cases h
+      · have hq := readValue_err_ranges { cfg := cfg, opts := opts } _ _ _ _ _ _ hr (by simpa using hfo)
+        obtain ⟨q1, q2⟩ := hq
+        simp only [Outcome.error.injEq] at h
+        obtain ⟨-, rfl, rfl⟩ := h
+        simp only []
+        exact ⟨by omega, Nat.sub_le _ _⟩
 
 end Edn.Proofs
